@@ -57,6 +57,7 @@ Proof. unfold members_of. rewrite map_map. reflexivity. Qed.
 Lemma roundtrip_single_full env t pt tags fields ms v v0 cnt used :
   get_arg_info env t = BOk (StructInfo t tags fields) ->
   get_all_struct_members (StructInfo t tags fields) = BOk ms ->
+  (N.of_nat (length ms) <= max_int)%N ->
   t_kind (tget env pt) = KPtr -> t_elem (tget env pt) = t ->
   (forall f, In f fields -> field_ok env t v f) ->
   (forall f, In f fields -> field_by_index v0 (sf_index f) <> None) ->
@@ -74,10 +75,11 @@ Lemma roundtrip_single_full env t pt tags fields ms v v0 cnt used :
     (forall f, In f fields -> field_by_index v' (sf_index f) = field_by_index v (sf_index f)) /\
     Forall (fun bc => bc_vals bc <> []) bcs.
 Proof.
-  intros GI GM Kp Ep FOK V0.
+  intros GI GM BND Kp Ep FOK V0.
   destruct (struct_info_facts env t tags fields ms GI GM) as [K [EM [NE [TS [NDt [IFF [WS [PW NEP]]]]]]]].
   set (ofs := tag_fields tags fields) in *.
   fold (members_of ofs) in EM. subst ms.
+  unfold members_of in BND. rewrite map_length in BND.
   assert (SRC : Forall (src_ok env t (ftype env t) v) ofs).
   { apply Forall_forall. intros f Hf. apply field_ok_src, FOK, IFF, Hf. }
   assert (F1 : Forall (fun f => sf_struct f = t /\ field_by_index v (sf_index f) <> None) ofs).
@@ -96,7 +98,7 @@ Proof.
   { apply Forall_forall. intros f Hf. rewrite Forall_forall in WS, SRC. unfold dest_ok.
     split; [apply WS; exact Hf|]. split; [apply V0, IFF, Hf|].
     destruct (SRC f Hf) as [T _]. exact T. }
-  destruct (scan_row_roundtrip env t pt (ftype env t) ofs (om_single v) v v0 Kp Ep K NE PW DST SRC)
+  destruct (scan_row_roundtrip env t pt (ftype env t) ofs (om_single v) v v0 Kp Ep K NE BND PW DST SRC)
     as [v' [SR EQ]].
   { intros f _ O. unfold om_single in O. apply andb_prop in O. tauto. }
   exists v'. rewrite star_insert_members, members_fst, members_snd.
@@ -111,6 +113,7 @@ Qed.
 Theorem roundtrip_single env t pt tags fields ms v v0 cnt used :
   get_arg_info env t = BOk (StructInfo t tags fields) ->
   get_all_struct_members (StructInfo t tags fields) = BOk ms ->
+  (N.of_nat (length ms) <= max_int)%N ->
   t_kind (tget env pt) = KPtr -> t_elem (tget env pt) = t ->
   (forall f, In f fields -> field_ok env t v f) ->
   (forall f, In f fields -> field_by_index v0 (sf_index f) <> None) ->
@@ -124,8 +127,8 @@ Theorem roundtrip_single env t pt tags fields ms v v0 cnt used :
       = (Some [(t, v')], None) /\
     forall f, In f fields -> field_by_index v' (sf_index f) = field_by_index v (sf_index f).
 Proof.
-  intros GI GM Kp Ep FOK V0.
-  destruct (roundtrip_single_full env t pt tags fields ms v v0 cnt used GI GM Kp Ep FOK V0)
+  intros GI GM BND Kp Ep FOK V0.
+  destruct (roundtrip_single_full env t pt tags fields ms v v0 cnt used GI GM BND Kp Ep FOK V0)
     as [bcs [cnt' [used' [tuple [cells [v' [H1 [H2 [H3 [H4 [H5 [H6 _]]]]]]]]]]]].
   exists bcs, cnt', used', tuple, cells, v'. repeat split; assumption.
 Qed.
@@ -152,6 +155,7 @@ Qed.
 Theorem roundtrip_bulk env t st pt tags fields ms nl vs cnt used :
   get_arg_info env t = BOk (StructInfo t tags fields) ->
   get_all_struct_members (StructInfo t tags fields) = BOk ms ->
+  (N.of_nat (length ms) <= max_int)%N ->
   t_kind (tget env pt) = KPtr -> t_elem (tget env pt) = t ->
   bulk_slice_type env t st ->
   vs <> [] -> Forall is_struct_val vs ->
@@ -176,10 +180,11 @@ Theorem roundtrip_bulk env t st pt tags fields ms nl vs cnt used :
           = (Some [(t, v')], None) /\
         forall f, In f fields -> field_by_index v' (sf_index f) = field_by_index e (sf_index f).
 Proof.
-  intros GI GM Kp Ep Sl NEv St FOK NM.
+  intros GI GM BND Kp Ep Sl NEv St FOK NM.
   destruct (struct_info_facts env t tags fields ms GI GM) as [K [EM [NE [TS [NDt [IFF [WS [PW NEP]]]]]]]].
   set (ofs := tag_fields tags fields) in *.
   fold (members_of ofs) in EM. subst ms.
+  unfold members_of in BND. rewrite map_length in BND.
   assert (Ne : Nat.eqb t st = false).
   { apply Nat.eqb_neq. intros E. subst st.
     assert (t_kind (tget env t) = KSlice); [|congruence].
@@ -217,7 +222,7 @@ Proof.
   { apply Forall_forall. intros f Hf. rewrite Forall_forall in WS. unfold dest_ok.
     split; [apply WS; exact Hf|]. split; [apply V0, IFF, Hf|].
     pose proof (SRC e He) as S. rewrite Forall_forall in S. destruct (S f Hf) as [T _]. exact T. }
-  destruct (scan_row_roundtrip env t pt (ftype env t) ofs (om_bulk vs) e v0 Kp Ep K NE PW DST (SRC e He))
+  destruct (scan_row_roundtrip env t pt (ftype env t) ofs (om_bulk vs) e v0 Kp Ep K NE BND PW DST (SRC e He))
     as [v' [SR EQ]].
   { intros f _ O. unfold om_bulk in O. apply andb_prop in O. destruct O as [_ O].
     rewrite forallb_forall in O. apply O. exact He. }
